@@ -12,31 +12,33 @@ pub open spec fn mono(w: spec_fn(int) -> int) -> bool {
 }
 pub open spec fn m1(r: int) -> int { if r < 1 { 1 } else { r } }
 /// naive linear scan: least r in [r, limit] with sbf(off + r) >= w(max(r,1))
-pub open spec fn scan<S: SupplyBound + ?Sized>(s: &S, off: int, w: spec_fn(int) -> int, r: int, limit: int) -> Option<int>
+pub open spec fn scan(sbf: spec_fn(int) -> int, off: int, w: spec_fn(int) -> int, r: int, limit: int) -> Option<int>
     decreases limit + 1 - r
 {
     if r > limit { None }
-    else if s.sbf(off + r) >= w(m1(r)) { Some(r) }
-    else { scan(s, off, w, r + 1, limit) }
+    else if sbf(off + r) >= w(m1(r)) { Some(r) }
+    else { scan(sbf, off, w, r + 1, limit) }
 }
-pub proof fn lemma_scan<S: SupplyBound + ?Sized>(s: &S, off: int, w: spec_fn(int) -> int, r: int, limit: int)
+/// the supply-bound function an object denotes, as a mathematical function
+pub open spec fn sbf_of<S: SupplyBound + ?Sized>(s: &S) -> spec_fn(int) -> int { |x: int| s.sbf(x) }
+pub proof fn lemma_scan(s: spec_fn(int) -> int, off: int, w: spec_fn(int) -> int, r: int, limit: int)
     requires 0 <= r
     ensures (match scan(s, off, w, r, limit) {
-        Some(x) => r <= x <= limit && s.sbf(off + x) >= w(m1(x)) && forall |q: int| r <= q < x ==> s.sbf(off + q) < #[trigger] w(m1(q)),
-        None => forall |q: int| r <= q <= limit ==> s.sbf(off + q) < #[trigger] w(m1(q)),
+        Some(x) => r <= x <= limit && s(off + x) >= w(m1(x)) && forall |q: int| r <= q < x ==> s(off + q) < #[trigger] w(m1(q)),
+        None => forall |q: int| r <= q <= limit ==> s(off + q) < #[trigger] w(m1(q)),
     })
     decreases limit + 1 - r
 {
-    if r > limit {} else if s.sbf(off + r) >= w(m1(r)) {} else { lemma_scan(s, off, w, r + 1, limit); }
+    if r > limit {} else if s(off + r) >= w(m1(r)) {} else { lemma_scan(s, off, w, r + 1, limit); }
 }
-pub proof fn lemma_scan_unique<S: SupplyBound + ?Sized>(s: &S, off: int, w: spec_fn(int) -> int, limit: int, x: int)
-    requires 0 <= x <= limit, s.sbf(off + x) >= w(m1(x)), forall |q: int| 0 <= q < x ==> s.sbf(off + q) < #[trigger] w(m1(q))
+pub proof fn lemma_scan_unique(s: spec_fn(int) -> int, off: int, w: spec_fn(int) -> int, limit: int, x: int)
+    requires 0 <= x <= limit, s(off + x) >= w(m1(x)), forall |q: int| 0 <= q < x ==> s(off + q) < #[trigger] w(m1(q))
     ensures scan(s, off, w, 0, limit) == Some(x)
 {
     lemma_scan(s, off, w, 0, limit);
 }
 /// C08: "an Ok result never changes when the limit is raised"
-pub proof fn lemma_scan_limit_independent<S: SupplyBound + ?Sized>(s: &S, off: int, w: spec_fn(int) -> int, limit: int, limit2: int)
+pub proof fn lemma_scan_limit_independent(s: spec_fn(int) -> int, off: int, w: spec_fn(int) -> int, limit: int, limit2: int)
     requires limit <= limit2, scan(s, off, w, 0, limit).is_some()
     ensures scan(s, off, w, 0, limit2) == scan(s, off, w, 0, limit)
 {
@@ -44,13 +46,13 @@ pub proof fn lemma_scan_limit_independent<S: SupplyBound + ?Sized>(s: &S, off: i
     lemma_scan_unique(s, off, w, limit2, scan(s, off, w, 0, limit).unwrap());
 }
 /// ... and divergence is reported exactly when no solution <= limit exists
-pub proof fn lemma_scan_none_iff<S: SupplyBound + ?Sized>(s: &S, off: int, w: spec_fn(int) -> int, limit: int)
-    ensures scan(s, off, w, 0, limit).is_none() <==> (forall |q: int| 0 <= q <= limit ==> s.sbf(off + q) < #[trigger] w(m1(q)))
+pub proof fn lemma_scan_none_iff(s: spec_fn(int) -> int, off: int, w: spec_fn(int) -> int, limit: int)
+    ensures scan(s, off, w, 0, limit).is_none() <==> (forall |q: int| 0 <= q <= limit ==> s(off + q) < #[trigger] w(m1(q)))
 {
     lemma_scan(s, off, w, 0, limit);
     if scan(s, off, w, 0, limit).is_some() {
         let x = scan(s, off, w, 0, limit).unwrap();
-        assert(s.sbf(off + x) >= w(m1(x)));
+        assert(s(off + x) >= w(m1(x)));
     }
 }
 pub open spec fn res_view(r: SearchResult) -> Option<int> { match r { Ok(d) => Some(d.v()), Err(_) => None } }
@@ -61,7 +63,7 @@ pub open spec fn res_is(res: SearchResult, v: Option<int>, offset: Offset, limit
 
 // ------------------------------------------------------------------ extracted code
 //@item src/fixed_point.rs :: enum SearchFailure
-pub enum SearchFailure {
+/*+*/#[derive(Debug)] /*-*/pub enum SearchFailure {
     /// No fixed point found below the given divergence threshold.
     /*@R12: #[error("no fixed point less than {limit} found for offset {offset}")] @*//*@.*/
     DivergenceLimitExceeded { offset: Offset, limit: Duration },
@@ -101,7 +103,7 @@ where
         // C08: least r >= 0 with sbf(offset + r) >= w(max(r,1)), Ok(0) when there is no demand;
         //      the divergence error (with offset and limit) exactly when no such r <= limit exists
         forall |w: spec_fn(int) -> int| #![trigger clo_is(workload, w)] #![trigger mono(w)] clo_is(workload, w) && mono(w) ==>
-            res_is(res, scan(supply, offset.v(), w, 0, divergence_limit.v()), offset, divergence_limit)
+            res_is(res, scan(sbf_of(supply), offset.v(), w, 0, divergence_limit.v()), offset, divergence_limit)
 //@-
 {
     let mut assumed_response_time = Duration::from(1);
@@ -132,7 +134,7 @@ where
         proof {
             supply.sbf_props(); supply.st_props(demand.v());
             assert forall |w: spec_fn(int) -> int| clo_is(workload, w) && mono(w) implies
-                (response_time_bound.v() <= assumed_response_time.v() ==> res_is(Ok::<Duration, SearchFailure>(response_time_bound), scan(supply, offset.v(), w, 0, divergence_limit.v()), offset, divergence_limit))
+                (response_time_bound.v() <= assumed_response_time.v() ==> res_is(Ok::<Duration, SearchFailure>(response_time_bound), scan(sbf_of(supply), offset.v(), w, 0, divergence_limit.v()), offset, divergence_limit))
                 && (response_time_bound.v() > assumed_response_time.v() ==>
                       (forall |q: int| 1 <= q < response_time_bound.v() ==> supply.sbf(offset.v() + q) < #[trigger] w(m1(q))) && supply.sbf(offset.v() + 0) < w(1))
             by {
@@ -143,7 +145,7 @@ where
                     assert(supply.sbf(off + b) >= w(a));
                     assert(w(m1(b)) <= w(a));
                     if b >= 1 && a == 1 { assert(b == 1); assert(supply.sbf(off + 0) < w(1)) by { assert(off + 0 < supply.st(w(1))); } }
-                    lemma_scan_unique(supply, off, w, divergence_limit.v(), b);
+                    lemma_scan_unique(sbf_of(supply), off, w, divergence_limit.v(), b);
                 } else {
                     assert forall |q: int| 1 <= q < b implies supply.sbf(off + q) < #[trigger] w(m1(q)) by {
                         if q >= a { assert(off + q < supply.st(w(a))); assert(supply.sbf(off + q) < w(a)); assert(w(a) <= w(q)); }
@@ -165,8 +167,8 @@ where
 //@+
     proof {
         assert forall |w: spec_fn(int) -> int| clo_is(workload, w) && mono(w) implies
-            scan(supply, offset.v(), w, 0, divergence_limit.v()).is_none() by {
-            lemma_scan(supply, offset.v(), w, 0, divergence_limit.v());
+            scan(sbf_of(supply), offset.v(), w, 0, divergence_limit.v()).is_none() by {
+            lemma_scan(sbf_of(supply), offset.v(), w, 0, divergence_limit.v());
         }
     }
 //@-
@@ -196,7 +198,7 @@ where
         supply.ps_ok(divergence_limit.v()),
     ensures
         forall |w: spec_fn(int) -> int| #![trigger clo_is(workload, w)] #![trigger mono(w)] clo_is(workload, w) && mono(w) ==>
-            res_is(res, scan(supply, offset.v(), w, 0, divergence_limit.v()), offset, divergence_limit)
+            res_is(res, scan(sbf_of(supply), offset.v(), w, 0, divergence_limit.v()), offset, divergence_limit)
 //@-
 {
     /*@R16: for r in 1..= @*/let vf_end = /*@.*/Time::from(divergence_limit)/*@R16: @*/; for r in 1..=vf_end/*@.*/
@@ -220,22 +222,22 @@ where
         proof {
             supply.sbf_props();
             assert forall |w: spec_fn(int) -> int| clo_is(workload, w) && mono(w) implies
-                (rhs.v() == 0 ==> res_is(Ok::<Duration, SearchFailure>(Duration { val: 0 }), scan(supply, 0, w, 0, divergence_limit.v()), offset, divergence_limit))
-                && (rhs.v() != 0 && lhs.v() == rhs.v() ==> res_is(Ok::<Duration, SearchFailure>(assumed_response_time), scan(supply, 0, w, 0, divergence_limit.v()), offset, divergence_limit))
+                (rhs.v() == 0 ==> res_is(Ok::<Duration, SearchFailure>(Duration { val: 0 }), scan(sbf_of(supply), 0, w, 0, divergence_limit.v()), offset, divergence_limit))
+                && (rhs.v() != 0 && lhs.v() == rhs.v() ==> res_is(Ok::<Duration, SearchFailure>(assumed_response_time), scan(sbf_of(supply), 0, w, 0, divergence_limit.v()), offset, divergence_limit))
                 && (rhs.v() != 0 && lhs.v() != rhs.v() ==> supply.sbf(r as int) < w(m1(r as int)) && supply.sbf(0) < w(1))
             by {
                 assert(rhs.v() == w(r as int));
                 assert(lhs.v() == supply.sbf(r as int));
                 if rhs.v() == 0 {
                     assert(w(1) <= w(r as int));
-                    lemma_scan_unique(supply, 0, w, divergence_limit.v(), 0);
+                    lemma_scan_unique(sbf_of(supply), 0, w, divergence_limit.v(), 0);
                 } else {
                     if r > 1 { assert(supply.sbf(r as int) <= supply.sbf(r - 1) + 1); assert(w(m1(r - 1)) <= w(r as int)); }
                     else { assert(supply.sbf(1) <= supply.sbf(0) + 1); }
                     assert(supply.sbf(r as int) <= w(r as int));
                     assert(w(1) <= w(r as int));
                     if r == 1 { assert(supply.sbf(0) < w(1)); }
-                    if lhs.v() == rhs.v() { lemma_scan_unique(supply, 0, w, divergence_limit.v(), r as int); }
+                    if lhs.v() == rhs.v() { lemma_scan_unique(sbf_of(supply), 0, w, divergence_limit.v(), r as int); }
                 }
             }
         }
@@ -250,12 +252,12 @@ where
 //@+
     proof {
         assert forall |w: spec_fn(int) -> int| clo_is(workload, w) && mono(w) implies
-            scan(supply, 0, w, 0, divergence_limit.v()).is_none() by {
-            lemma_scan(supply, 0, w, 0, divergence_limit.v());
+            scan(sbf_of(supply), 0, w, 0, divergence_limit.v()).is_none() by {
+            lemma_scan(sbf_of(supply), 0, w, 0, divergence_limit.v());
             assert(supply.sbf(0) < w(1));
             assert(forall |q: int| 1 <= q <= divergence_limit.v() ==> supply.sbf(q) < #[trigger] w(m1(q)));
-            if scan(supply, 0, w, 0, divergence_limit.v()).is_some() {
-                let x = scan(supply, 0, w, 0, divergence_limit.v()).unwrap();
+            if scan(sbf_of(supply), 0, w, 0, divergence_limit.v()).is_some() {
+                let x = scan(sbf_of(supply), 0, w, 0, divergence_limit.v()).unwrap();
                 assert(supply.sbf(0 + x) >= w(m1(x)));
                 if x == 0 { assert(m1(0) == 1); } else { assert(supply.sbf(x) < w(m1(x))); }
             }
@@ -287,10 +289,10 @@ where
         // the library's debug cross-check evaluates provided_service up to min(limit, 100_000)
         divergence_limit.v() <= 100_000 ==> supply.ps_ok(divergence_limit.v()),
         // the debug cross-check compares two evaluations of the closure: it must be a function
-        exists |w: spec_fn(int) -> int| clo_is(&workload_bound, w) && mono(w),
+        exists |w: spec_fn(int) -> int| #![trigger clo_is(&workload_bound, w)] #![trigger mono(w)] clo_is(&workload_bound, w) && mono(w),
     ensures
         forall |w: spec_fn(int) -> int| #![trigger clo_is(&workload_bound, w)] #![trigger mono(w)] clo_is(&workload_bound, w) && mono(w) ==>
-            res_is(res, scan(supply, 0, w, 0, divergence_limit.v()), Offset { val: 0 }, divergence_limit)
+            res_is(res, scan(sbf_of(supply), 0, w, 0, divergence_limit.v()), Offset { val: 0 }, divergence_limit)
 //@-
 {
 //@+
@@ -317,6 +319,126 @@ where
         }/*@.*/
     }
     bw
+}
+//@end
+
+// ------------------------------------------------------------------ max_response_time (C08, third sentence)
+/// the comparator's order: an error dominates everything after it, otherwise compare the bounds
+pub open spec fn err_dominant(a: SearchResult, b: SearchResult) -> Ordering {
+    if a.is_err() { Ordering::Greater } else if b.is_err() { Ordering::Less }
+    else if a.unwrap().val < b.unwrap().val { Ordering::Less } else if a.unwrap().val == b.unwrap().val { Ordering::Equal } else { Ordering::Greater }
+}
+/// std: `Iterator::max_by` = fold that keeps the accumulator only on `Greater` (the last maximum wins)
+pub open spec fn fold_max_by(xs: Seq<SearchResult>, c: spec_fn(SearchResult, SearchResult) -> Ordering) -> Option<SearchResult>
+    decreases xs.len()
+{
+    if xs.len() == 0 { None } else if xs.len() == 1 { Some(xs[0]) }
+    else { let acc = fold_max_by(xs.drop_last(), c).unwrap(); let y = xs.last(); Some(if c(acc, y) == Ordering::Greater { acc } else { y }) }
+}
+pub open spec fn has_err(xs: Seq<SearchResult>) -> bool { exists |i: int| 0 <= i < xs.len() && (#[trigger] xs[i]).is_err() }
+/// C08: "the first error if there is one, otherwise the maximum, and zero for an empty sequence"
+pub open spec fn mrt_ok(res: SearchResult, xs: Seq<SearchResult>) -> bool {
+    if xs.len() == 0 { res == Ok::<Duration, SearchFailure>(Duration { val: 0 }) }
+    else if has_err(xs) {
+        exists |i: int| 0 <= i < xs.len() && xs[i].is_err() && res == #[trigger] xs[i] && forall |k: int| 0 <= k < i ==> !(#[trigger] xs[k]).is_err()
+    } else {
+        res.is_ok() && (exists |i: int| 0 <= i < xs.len() && res == #[trigger] xs[i])
+        && forall |k: int| 0 <= k < xs.len() ==> (#[trigger] xs[k]).unwrap().val <= res.unwrap().val
+    }
+}
+pub proof fn lemma_fold_err_dominant(xs: Seq<SearchResult>)
+    requires xs.len() >= 1
+    ensures fold_max_by(xs, |a: SearchResult, b: SearchResult| err_dominant(a, b)).is_some(),
+            mrt_ok(fold_max_by(xs, |a: SearchResult, b: SearchResult| err_dominant(a, b)).unwrap(), xs)
+    decreases xs.len()
+{
+    let c = |a: SearchResult, b: SearchResult| err_dominant(a, b);
+    if xs.len() == 1 {
+        if xs[0].is_err() { assert(has_err(xs)); }
+        else { assert(!has_err(xs)); }
+    } else {
+        let ys = xs.drop_last();
+        lemma_fold_err_dominant(ys);
+        let acc = fold_max_by(ys, c).unwrap();
+        let y = xs.last();
+        let r = if c(acc, y) == Ordering::Greater { acc } else { y };
+        assert forall |k: int| 0 <= k < ys.len() implies ys[k] == xs[k] by {}
+        if has_err(ys) {
+            let i = choose |i: int| 0 <= i < ys.len() && ys[i].is_err() && acc == #[trigger] ys[i] && forall |k: int| 0 <= k < i ==> !(#[trigger] ys[k]).is_err();
+            assert(xs[i].is_err());
+            assert(has_err(xs));
+            assert(r == acc);
+            assert(xs[i].is_err() && r == xs[i] && forall |k: int| 0 <= k < i ==> !(#[trigger] xs[k]).is_err());
+        } else if y.is_err() {
+            assert(xs[xs.len() - 1].is_err());
+            assert(has_err(xs));
+            assert(r == y);
+            let i = xs.len() - 1;
+            assert(xs[i].is_err() && r == xs[i] && forall |k: int| 0 <= k < i ==> !(#[trigger] xs[k]).is_err()) by {
+                assert forall |k: int| 0 <= k < i implies !(#[trigger] xs[k]).is_err() by { assert(ys[k] == xs[k]); }
+            }
+        } else {
+            assert(!has_err(xs)) by {
+                if has_err(xs) { let j = choose |j: int| 0 <= j < xs.len() && (#[trigger] xs[j]).is_err(); if j < ys.len() { assert(ys[j].is_err()); } }
+            }
+            let i0 = choose |i: int| 0 <= i < ys.len() && acc == #[trigger] ys[i];
+            if c(acc, y) == Ordering::Greater { assert(r == xs[i0]); } else { assert(r == xs[xs.len() - 1]); }
+            assert forall |k: int| 0 <= k < xs.len() implies (#[trigger] xs[k]).unwrap().val <= r.unwrap().val by {
+                if k < ys.len() { assert(ys[k].unwrap().val <= acc.unwrap().val); }
+            }
+        }
+    }
+}
+/// R3: `iter.max_by(cmp)` over a finite sequence, as a verified loop implementing the std fold
+pub fn vf_max_by<F: Fn(&SearchResult, &SearchResult) -> Ordering>(xs: &[SearchResult], f: F, Ghost(c): Ghost<spec_fn(SearchResult, SearchResult) -> Ordering>) -> (r: Option<SearchResult>)
+    requires
+        forall |a: SearchResult, b: SearchResult| #[trigger] f.requires((&a, &b)),
+        forall |a: SearchResult, b: SearchResult, o: Ordering| #[trigger] f.ensures((&a, &b), o) ==> o == c(a, b),
+    ensures r == fold_max_by(xs@, c)
+{
+    if xs.len() == 0 { return None; }
+    let mut acc: SearchResult = xs[0];
+    proof { assert(xs@.take(1) =~= seq![xs@[0]]); }
+    let mut i: usize = 1;
+    while i < xs.len()
+        invariant 1 <= i <= xs@.len(), Some(acc) == fold_max_by(xs@.take(i as int), c),
+            forall |a: SearchResult, b: SearchResult| #[trigger] f.requires((&a, &b)),
+            forall |a: SearchResult, b: SearchResult, o: Ordering| #[trigger] f.ensures((&a, &b), o) ==> o == c(a, b),
+        decreases xs@.len() - i
+    {
+        let y = xs[i];
+        let o = f(&acc, &y);
+        proof { assert(xs@.take(i as int + 1).drop_last() =~= xs@.take(i as int)); }
+        acc = match o { Ordering::Greater => acc, _ => y };
+        i = i + 1;
+    }
+    proof { assert(xs@.take(xs@.len() as int) =~= xs@); }
+    Some(acc)
+}
+
+//@item src/fixed_point.rs :: fn max_response_time
+pub fn max_response_time(/*@R15: rta_per_offset: impl Iterator<Item = SearchResult> @*/rta_per_offset: &[SearchResult]/*@.*/) -> /*+*/(res: /*-*/SearchResult/*+*/)
+    ensures mrt_ok(res, rta_per_offset@)/*-*/ {
+//@+
+    proof { if rta_per_offset@.len() >= 1 { lemma_fold_err_dominant(rta_per_offset@); } }
+//@-
+    /*@R3: rta_per_offset
+        .max_by( @*/vf_max_by(rta_per_offset, /*@.*/|a/*+*/: &SearchResult/*-*/, b/*+*/: &SearchResult/*-*/| /*+*/-> (o: Ordering) ensures o == err_dominant(*a, *b)/*-*/ {
+            // propagate any errors values
+            if a.is_err() {
+                // if a is an error, we want to report it
+                Ordering::Greater
+            } else if b.is_err() {
+                // if a is not an error, but b is, then we want b
+                Ordering::Less
+            } else {
+                // if neither is an error, report the maximum result
+                a.unwrap().cmp(&b.unwrap())
+            }
+        }/*@R3: ) @*/, Ghost(|a: SearchResult, b: SearchResult| err_dominant(a, b)))/*@.*/
+        // If we have no result at all, there are no demand steps, so the
+        // response-time is trivially zero.
+        .unwrap_or(Ok(Duration::zero()))
 }
 //@end
 
